@@ -83,6 +83,16 @@ func adsOwner(raw json.RawMessage) interface{} {
 	ctx, cf := context.WithCancel(s.context)
 	s.connections["p1"] = &connInfo{ReadChan: make(chan []byte), WriteChan: ch, Context: ctx, CancelFunc: cf, Cost: 1,
 		lastReceivedData: time.Now(), lastReceivedLock: &sync.RWMutex{}, logger: s.Logger}
+	if a.Variant == "close-at-sibling-once" {
+		// siblings first: a round follows map iteration, which starts at a random slot — with the own service in the last
+		// used slot a sibling comes first in seven rounds out of eight
+		a.Other = false
+		for _, sib := range []string{"stay1", "stay2", "stay3", "stay4"} {
+			if _, err := s.ListenPacketAndAdvertise(sib, map[string]string{"type": "y"}); err != nil {
+				return map[string]interface{}{"error": err.Error()}
+			}
+		}
+	}
 	pc, err := s.ListenPacketAndAdvertise(svc, map[string]string{"type": "x"})
 	if err != nil {
 		return map[string]interface{}{"error": err.Error()}
